@@ -1276,13 +1276,14 @@ Proof.
   - destruct (sim_matmul _ _ _ _ _ _ _ _ _ _ _ _ _ _ _ I Hc He) as (fs & I' & Hl).
     exists fs, ctgt, etgt. split; [exact I'|]. split; [auto|]. split; [contradiction|].
     rewrite app_length, Hl. reflexivity.
-  - destruct (sim_map _ _ _ _ _ _ _ _ _ _ _ _ _ _ _ _ I Hc He) as (fs & I' & Hl).
+  - cbn [supported] in Hs. destruct (sim_map _ _ _ _ _ _ _ _ _ _ _ _ _ _ _ _ Hs I Hc He) as (fs & I' & Hl).
     exists fs, ctgt, etgt. split; [exact I'|]. split; [auto|]. split; [contradiction|].
     rewrite app_length, Hl. reflexivity.
-  - destruct (sim_fromiter _ _ _ _ _ _ _ _ _ _ _ _ _ _ _ _ _ I Hc He) as (fs & I' & Hl).
+  - cbn [supported] in Hs. destruct (sim_fromiter _ _ _ _ _ _ _ _ _ _ _ _ _ _ _ _ _ _ Hs I Hc He) as (fs & I' & Hl).
     exists fs, ctgt, etgt. split; [exact I'|]. split; [auto|]. split; [contradiction|].
     rewrite app_length, Hl. reflexivity.
-  - destruct (sim_fromiters2 _ _ _ _ _ _ _ _ _ _ _ _ _ _ _ _ I Hc He) as (fs & I' & Hl).
+  - cbn [supported] in Hs. apply andb_true_iff in Hs as [Hs1 Hs2].
+    destruct (sim_fromiters2 _ _ _ _ _ _ _ _ _ _ _ _ _ _ _ _ Hs1 Hs2 I Hc He) as (fs & I' & Hl).
     exists fs, ctgt, etgt. split; [exact I'|]. split; [auto|]. split; [contradiction|].
     rewrite app_length, Hl. reflexivity.
 Qed.
@@ -1300,6 +1301,7 @@ Proof.
     intros [H|[]]. exact H.
   - cbn [forallb] in Hs. apply andb_true_iff in Hs as [Hs1 Hs2]. cbn [crun erun].
     destruct (cstep ops (ct, cenv) o) as [[[t1 cs]| |]|] eqn:Ec; try discriminate.
+    destruct (forallb _ cs); [|discriminate].
     destruct (estep ops (et, eenv) o) as [[[t2 es]| |]|] eqn:Ee; try discriminate.
     cbn [snd]. intros R1 R2.
     destruct (sim_step _ _ _ _ _ _ _ _ _ _ _ _ _ _ Hs1 I Ec Ee) as (fs & c1 & e1 & I1 & K1 & K2 & K3).
@@ -1390,25 +1392,6 @@ Proof.
     congruence.
 Qed.
 
-
-Lemma all_supported (prog : list (cop R)) : forallb supported prog = true.
-Proof. induction prog as [|o r IH]; cbn; [reflexivity|]. rewrite IH. destruct o; reflexivity. Qed.
-
-Theorem elementwise_equiv_all prog m m' ct cenv et eenv :
-  crun ops ([], []) 0 prog = Some (m, Ok (ct, cenv)) ->
-  erun ops ([], []) 0 prog = Some (m', Ok (et, eenv)) ->
-  (forall o c e, nth_error cenv o = Some c -> nth_error eenv o = Some e ->
-     c_tensor c = e_tensor e /\ c_shape c = e_shape e /\
-     map fst (c_data c) = map (@r_num R) (e_recs e)) /\
-  (forall x j o i cx ex vx p rq c e v po ro h h',
-     is_input x j 0 prog ->
-     nth_error cenv x = Some cx -> nth_error eenv x = Some ex ->
-     nth_error (c_data cx) j = Some (vx, p) -> nth_error (e_recs ex) j = Some rq ->
-     nth_error cenv o = Some c -> nth_error eenv o = Some e ->
-     nth_error (c_data c) i = Some (v, po) -> c_hist c = Some h ->
-     nth_error (e_recs e) i = Some ro -> r_hist ro = Some h' ->
-     nth p (sweep ops ct po) rO = nth (r_idx rq) (sweep ops et (r_idx ro)) rO).
-Proof. apply elementwise_equiv. apply all_supported. Qed.
 
 (* ------------------------------------------------------------------ the constant side is inert
    The index stored next to a constant (history None) is never read: replacing the indexes of a
